@@ -90,17 +90,30 @@ type HookEvent struct {
 func (e HookEvent) String() string { return e.Hook + ":" + e.Type + ":" + e.Name }
 
 // ErrHook is the sentinel returned by a failing hook.
-type ErrHook struct{ At int }
+type ErrHook struct {
+	At int
+	// Cause, when set, is what the hook's error wraps (a hook may fail with any error value: its own
+	// timeout, a not-found from a lookup, ...); errors.Is sees it, errors.As still finds *ErrHook
+	Cause error
+}
 
-func (e *ErrHook) Error() string { return fmt.Sprintf("verif: hook invocation %d failed", e.At) }
+func (e *ErrHook) Error() string {
+	if e.Cause != nil {
+		return fmt.Sprintf("verif: hook invocation %d failed: %v", e.At, e.Cause)
+	}
+	return fmt.Sprintf("verif: hook invocation %d failed", e.At)
+}
+
+func (e *ErrHook) Unwrap() error { return e.Cause }
 
 // H is the per-process hook state (engines using it run operations sequentially).
 var H struct {
 	Log     []HookEvent
 	Count   int
-	FailAt  int  // 1-based invocation to fail, 0 = none
-	Audit   bool // write an audit row through tx in every Before*/After* write hook
-	SetCols bool // before-hooks set Stamp (direct) and Stamp2 (SetColumn)
+	FailAt  int   // 1-based invocation to fail, 0 = none
+	Cause   error // wrapped by the failing hook's error (nil = plain sentinel)
+	Audit   bool  // write an audit row through tx in every Before*/After* write hook
+	SetCols bool  // before-hooks set Stamp (direct) and Stamp2 (SetColumn)
 	Enabled bool
 	CtxKey  interface{}
 	MarkFn  func() int
@@ -134,7 +147,7 @@ func hook(name, typ string, ptr interface{}, payload string, tx *gorm.DB, write 
 		}
 	}
 	if H.FailAt == H.Count {
-		return &ErrHook{At: H.Count}
+		return &ErrHook{At: H.Count, Cause: H.Cause}
 	}
 	return nil
 }
